@@ -956,7 +956,7 @@ pub fn aig_doc_strategy(lit: u8, binary: bool) -> impl Strategy<Value = AigDoc> 
             0u64..=5,
         ), // I, L, A
         proptest::collection::vec(any::<u32>(), 40), // literal choices
-        (0usize..=3, 0usize..=2, 0usize..=2, 0usize..=2, 0usize..=2), // O, B, C, J, F counts
+        (0usize..=3, 0usize..=2, 0usize..=2, prop_oneof![3 => 0usize..=2, 1 => 3usize..=5], 0usize..=2), // O, B, C, J, F counts
         proptest::collection::vec((any::<u8>(), any::<u16>(), name_strategy()), 0..=4),
         proptest::option::weighted(0.4, comment_strategy()),
         0u8..3, // max_var slack mode
